@@ -451,7 +451,66 @@ def tod_item(arg):
     return out
 
 
+def corrupt_item(arg):
+    """vcorrupt=<segment>&frames=<n> forwarded through the manifest means n at the media end too: at most n video
+    samples of the addressed segment differ from the stored ones (none for 0, at least one otherwise), and no sample of
+    the neighbouring segments."""
+    template, frames = arg
+    from mc import bmff
+    w = W.World.shared()
+    w.begin_item()
+    acc = core.Acc()
+    W.set_now(NOW)
+    q = {'vcorrupt': '3'}
+    if frames is not None:
+        q['frames'] = frames
+    url = crawl.manifest_url('vod', 'bbb', template, q)
+    r = w.get(url)
+    acc.count('evaluations')
+    acc.count('transitions')
+    rec = {'kind': 'corrupt', 'template': template, 'frames': frames}
+    if r.status != 200:
+        acc.outcome(('corrupt-manifest', r.status))
+        return acc
+    doc = mpd.Mpd(r.body, 'http://localhost' + url.split('?')[0])
+    st = crawl.Stored.fixture('bbb')
+    limit = 4 if frames is None else int(frames)
+    for rep in doc.all_reps():
+        if rep.content_type != 'video' or rep.id not in st.files:
+            continue
+        f = st.files[rep.id]
+        segs = {sg['n']: sg for sg in doc.segments(rep, NOW)}
+        for n in (2, 3, 4):
+            if n not in segs:
+                continue
+            sr = w.get(mpd.split_url(segs[n]['url']))
+            acc.count('evaluations')
+            acc.count('transitions')
+            if sr.status != 200:
+                acc.outcome(('corrupt-segment', sr.status))
+                continue
+            frag = bmff.Fragment(sr.body, f['init'])
+            stored = f['segs'][n - 1]
+            want = f['data'][stored['payload_start']:stored['payload_start'] + stored['payload_len']]
+            pos = 0
+            differing = 0
+            for size in frag.sample_sizes:
+                if frag.payload[pos:pos + size] != want[pos:pos + size]:
+                    differing += 1
+                pos += size
+            acc.state((template, frames, rep.id, n))
+            acc.nontriv((template, frames, rep.id, n))
+            lo, hi = (0, 0) if (n != 3 or limit == 0) else (1, limit)
+            if not (lo <= differing <= hi):
+                acc.violation(sig('corruption-frames', 'addressed' if n == 3 else 'neighbour', f'frames={frames}'),
+                              f'{url}: {rep.id} segment {n}: {differing} samples differ from the stored ones, the request '
+                              f'means between {lo} and {hi}', rec)
+    return acc
+
+
 def _dispatch(item):
+    if item[0] == 'corrupt':
+        return corrupt_item(item[1])
     if item[0] == 'int' and item[1][0] == 'legacy':
         return legacy_item(item[1])
     if item[0] == 'tod':
@@ -461,6 +520,9 @@ def _dispatch(item):
 
 def run(ctx):
     items = [('unit', None)] + [('int', it) for it in plan(ctx.tier)]
+    for template in ('hand_made', 'manifest_e'):
+        for frames in (None, '0', '1', '2', '6'):
+            items.append(('corrupt', (template, frames)))
     for addressing in ('number', 'time'):
         for ks in ([12, 13], [16, 19], [20, 23.5]) if ctx.quick else ([8, 9, 10, 11], [12, 13, 14, 15], [16, 19, 20, 23.5], [24, 28, 32, 36]):
             items.append(('tod', ('bbb', addressing, ks, ctx.tier)))
@@ -472,6 +534,9 @@ def run(ctx):
 
 
 def replay(record):
+    if record.get('kind') == 'corrupt':
+        acc = corrupt_item((record['template'], record['frames']))
+        return [(s, v[0]['what']) for s, v in acc.viol.items()]
     if record.get('kind') == 'tod7':
         acc = tod_item(tuple(record['arg'][:2]) + (record['ks'],) + tuple(record['arg'][3:]))
         return [(s, v[0]['what']) for s, v in acc.viol.items()]
